@@ -240,6 +240,16 @@ def gen_scenario(seed, cfg):
 ###############################################################################
 
 
+def make_constants_schema():
+    """A schema in which some of the names the generated trees use are message constants."""
+    from hpl import types as T
+    num = T.FLOAT64
+    inner = T.MessageType('InnerC', fields={'ok': T.BOOLEANS}, constants={'x': (num, 1.5)})
+    fields = {'p': T.BOOLEANS, 'q': T.BOOLEANS, 'ok': T.BOOLEANS, 'x': num, 'txt': T.STRINGS,
+              'xs': T.ArrayType('float64[]', subtype=num), 'bs': T.ArrayType('bool[3]', subtype=T.BOOLEANS, length=3), 'm': inner}
+    return T.MessageType('MsgC', fields=fields, constants={'k': (T.INT32, 3), 'y': (num, 2.5)})
+
+
 def make_partial_schema():
     """A schema that lacks some fields: checks against it fail half-way through a tree."""
     from hpl import types as T
@@ -446,7 +456,7 @@ def do_op(name, h, h2, op, pool, schema, msg_types):
     if name == 'replace_var_reference':
         return obj.replace_var_reference(_an_alias(obj, op), _an_expr(h2, op)), None
     if name in ('type_check_expr', 'type_check_pred'):
-        sch = schema if op['sel'] & 3 else make_partial_schema()
+        sch = (schema, schema, make_constants_schema(), make_partial_schema())[op['sel'] & 3]
         return obj.type_check_references(sch, {'A': schema if op['sel'] & 4 else sch}), None
     if name == 'simplify':
         return rw.simplify(obj), None
@@ -518,9 +528,9 @@ def synth_donors():
 
 
 def _msg_types_variant(msg_types, op):
-    if op['sel'] & 3:
+    if (op['sel'] & 3) in (1, 2):
         return msg_types
-    part = make_partial_schema()
+    part = make_partial_schema() if op['sel'] & 3 else make_constants_schema()
     out = dict(msg_types)
     keys = sorted(out)
     for i, k in enumerate(keys):
